@@ -485,3 +485,11 @@ class UnregisterCollected(_RegBase):
         mine = z3.And(p0, v0 == self.ref.e)
         return [("the id is forgotten exactly when it still holds the collected object's weak reference", z3.If(mine, z3.Not(p1), same_entry(old, st, self.d, self.oid.e))),
                 ("every other id is untouched", z3.Implies(KSTAR != self.oid.e, same_entry(old, st, self.d, KSTAR)))]
+
+
+@R.lemma("C16:registry-frame", props=("C16",))
+def registry_frame(E):
+    """the daemon's registry objectsById is written only by register, unregister, the weak-registration callback and the constructor"""
+    from contracts.frames import frame_obligations
+    D = "Pyro5/server.py:Daemon."
+    frame_obligations(E, "registry", {"objectsById": {D + "__init__", D + "register", D + "unregister", D + "_unregister_collected"}})
